@@ -34,6 +34,8 @@ FAMILIES = {
     "nested {{a| }}": lambda n: "{{a|" * n + "}}" * n, "nested {{{a| }}}": lambda n: "{{{a|" * n + "}}}" * n,
     "nested <b> </b>": lambda n: "<b>" * n + "</b>" * n, "nested [[a| ]]": lambda n: "[[a|" * n + "]]" * n,
     "nested <div><span>": lambda n: "<div><span>" * n + "</span></div>" * n, "nested lists": lambda n: "*" * n + " a",
+    "nested quoted attribute + text": lambda n: "<br a=\"" * n + "x" + "\"y>" * n, "nested 'quoted' attribute + text": lambda n: "<br a='" * n + "x" + "'y>" * n,
+    "nested quoted attribute in <b>": lambda n: "<b a=\"" * n + "x" + "\"y>z</b>" * n, "nested table style quote + text": lambda n: "{| a=\"" * n + "x" + "\"y\n|}" * n,
     "nested <a <a />": lambda n: "<a " * n + "/>" * n, "nested <a b=<a b=": lambda n: "<a b=" * n + "x" + ">y</a>" * n,
     "nested <a b=\"<a b=\"": lambda n: "<a b=\"" * n + "x" + "\">y</a>" * n, "nested <a {{b|<a": lambda n: "<a {{b|" * n + "}}/>" * n,
     "nested {| a=<b ": lambda n: "{| a=<b c=" * n + "x" + ">y</b>\n|}" * n, "nested <a [[b|<a": lambda n: "<a [[b|" * n + "]]/>" * n,
